@@ -1,1 +1,137 @@
-pub fn replay_file(_path: &str) -> i32 { 2 }
+//! `./check replay <file>`: re-run one recorded case against the real code, without explorer or generators.
+
+use crate::drive::{self, RunOutcome};
+use crate::lang::{parse_ty, Ty, Val};
+use crate::refmodel::{self, resolve, AliasMap};
+use serde_json::Value as J;
+use simfony::parse::ParseFromStr;
+
+fn parse_entry(e: &J) -> Option<(String, Val, Ty)> {
+    let name = e.get("name")?.as_str()?.to_string();
+    let ty = resolve(&parse_ty(e.get("ty")?.as_str()?)?, &AliasMap::new()).ok()?;
+    let sv = simfony::Value::parse_from_str(e.get("val")?.as_str()?, &drive::sim_ty(&ty)).ok()?;
+    Some((name, drive::from_sim_val(&sv), ty))
+}
+
+fn parse_map(j: Option<&J>) -> Option<Vec<(String, Val, Ty)>> {
+    match j {
+        None => Some(vec![]),
+        Some(J::Array(a)) => a.iter().map(parse_entry).collect(),
+        _ => None,
+    }
+}
+
+fn env_of(j: &J) -> drive::Env {
+    match j.get("env") {
+        Some(J::Object(m)) => {
+            let lock = m.get("lock_time").and_then(|x| x.as_u64()).unwrap_or(0) as u32;
+            let seq = m.get("sequence").and_then(|x| x.as_u64()).unwrap_or(0xffff_ffff) as u32;
+            drive::env_with(lock, seq)
+        }
+        _ => drive::dummy_env(),
+    }
+}
+
+pub fn replay_file(path: &str) -> i32 {
+    let Ok(text) = std::fs::read_to_string(path) else {
+        eprintln!("cannot read {path}");
+        return 2;
+    };
+    let Ok(j) = serde_json::from_str::<J>(&text) else {
+        eprintln!("{path} is not JSON");
+        return 2;
+    };
+    let prop = j.get("property").and_then(|x| x.as_str()).unwrap_or("?").to_string();
+    let kind = j.get("kind").and_then(|x| x.as_str()).unwrap_or("");
+    let expect = j.get("expect").and_then(|x| x.as_str()).unwrap_or("").to_string();
+    let observed: String = match kind {
+        "run" | "run_pruned" => {
+            let program = j.get("program").and_then(|x| x.as_str()).unwrap_or("");
+            let (Some(args), Some(wit)) = (parse_map(j.get("args")), parse_map(j.get("witness"))) else {
+                eprintln!("cannot rebuild the argument / witness maps");
+                return 2;
+            };
+            let debug = j.get("debug").and_then(|x| x.as_bool()).unwrap_or(false);
+            let env = env_of(&j);
+            match drive::build(program, drive::argument_map(&args), debug) {
+                Err(e) => format!("not-compiled: {e:?}"),
+                Ok(b) => {
+                    let out = if kind == "run" { drive::run(&b, drive::witness_map(&wit), &env) } else { drive::run_pruned(&b, drive::witness_map(&wit), &env) };
+                    println!("outcome: {out:?}");
+                    out.class().to_string()
+                }
+            }
+        }
+        "compile" => {
+            let program = j.get("program").and_then(|x| x.as_str()).unwrap_or("");
+            match drive::guard(|| simfony::TemplateProgram::new(program).map(|_| ())) {
+                Ok(Ok(())) => "accept".into(),
+                Ok(Err(e)) => {
+                    println!("{e}");
+                    "reject".into()
+                }
+                Err(p) => format!("panic: {p}"),
+            }
+        }
+        "parse_value" => {
+            let text = j.get("text").and_then(|x| x.as_str()).unwrap_or("");
+            let ty = j.get("ty").and_then(|x| x.as_str()).and_then(parse_ty).and_then(|t| resolve(&t, &AliasMap::new()).ok());
+            let Some(ty) = ty else { return 2 };
+            match drive::guard(|| simfony::Value::parse_from_str(text, &drive::sim_ty(&ty))) {
+                Ok(Ok(v)) => format!("Ok({v})"),
+                Ok(Err(e)) => format!("Err({})", drive::first_line(&e.to_string())),
+                Err(p) => format!("panic: {p}"),
+            }
+        }
+        "value_roundtrip" | "layout_value" => {
+            let Some((_, v, ty)) = parse_entry(&serde_json::json!({"name": "x", "ty": j.get("ty"), "val": j.get("val")})) else { return 2 };
+            let sv = drive::sim_val(&v, &ty);
+            if kind == "value_roundtrip" {
+                let printed = sv.to_string();
+                let back = simfony::Value::parse_from_str(&printed, &drive::sim_ty(&ty));
+                let ok = back.as_ref().ok() == Some(&sv);
+                format!("printed {printed:?}; round trip {}", if ok { "ok" } else { "MISMATCH" })
+            } else {
+                let st = simfony::value::StructuralValue::from(&sv);
+                let ok = drive::bv_matches(&refmodel::encode(&v, &ty), st.as_ref().as_ref());
+                format!("structure {}", if ok { "ok" } else { "MISMATCH" })
+            }
+        }
+        "type_roundtrip" | "layout_type" => {
+            let ty = j.get("ty").and_then(|x| x.as_str()).and_then(parse_ty).and_then(|t| resolve(&t, &AliasMap::new()).ok());
+            let Some(ty) = ty else { return 2 };
+            let sty = drive::sim_ty(&ty);
+            if kind == "type_roundtrip" {
+                let printed = sty.to_string();
+                let ok = simfony::ResolvedType::parse_from_str(&printed).ok().as_ref() == Some(&sty);
+                format!("printed {printed:?}; round trip {}", if ok { "ok" } else { "MISMATCH" })
+            } else {
+                let mut memo = std::collections::HashMap::new();
+                let ok = drive::final_of(refmodel::layout(&ty), &mut memo).tmr() == simfony::types::StructuralType::from(&sty).as_ref().tmr();
+                format!("layout {}", if ok { "ok" } else { "MISMATCH" })
+            }
+        }
+        "text" => {
+            // generic text entry-point case: {"entry": ..., "text": ...}
+            let entry = j.get("entry").and_then(|x| x.as_str()).unwrap_or("");
+            let text = j.get("text").and_then(|x| x.as_str()).unwrap_or("");
+            let ty = j.get("ty").and_then(|x| x.as_str()).unwrap_or("");
+            crate::props::c06::run_entry(entry, text, ty)
+        }
+        other => {
+            println!("replay kind {other:?}: no single-case runner; the file records the inputs:\n{}", serde_json::to_string_pretty(&j).unwrap_or_default());
+            return 0;
+        }
+    };
+    println!("property={prop} kind={kind} expect={expect:?} observed={observed:?}");
+    let still_failing = if kind == "parse_value" {
+        observed.starts_with("panic") || (expect.starts_with("Reject") && observed.starts_with("Ok")) || (expect.starts_with("Ok") && !observed.starts_with("Ok"))
+    } else if expect.is_empty() { observed.contains("MISMATCH") || observed.starts_with("panic") } else { !observed.starts_with(&expect) };
+    if still_failing {
+        println!("VIOLATION property={prop} replay={path}");
+        1
+    } else {
+        println!("case now behaves as expected");
+        0
+    }
+}
